@@ -200,24 +200,30 @@ def check(ctx):
     ln_ = hj.func("JsonHistory.__len__")
     ok = any(isinstance(n, ast.Return) and unparse(n.value) == "self._len - self._skipped" for n in walk_local(ln_))
     ctx.ob("R3", f"{HJ}:JsonHistory.__len__", "len() = appended - skipped", ok, key="len|formula")
-    du = hj.func("JsonHistoryFlusher.dump")
+    du = flat(ctx, hj.func("JsonHistoryFlusher.dump"), depth=2, skip=("skip",))
     dcfg = CFG(du)
     conts = [n for n in dcfg.nodes if n.kind == "stmt" and isinstance(n.ast, ast.Continue) and any(isinstance(a, ast.For) and unparse(a.iter) == "self.buffer" for a in ancestors(n.ast))]
-    if len(conts) < 2:
+    if len(conts) < 1:
         raise AnalysisError(f"{HJ}:JsonHistoryFlusher.dump: filtering `continue`s not found")
     for c in conts:
         par = parent(c.ast)
         sk = [s for s in par.body if any(call_name(x) == "self.skip" and x.args and const_value(x.args[0]) == 1 for x in calls_in(s))] if isinstance(par, ast.If) else []
         ctx.ob("R3", f"{HJ}:JsonHistoryFlusher.dump", f"the command filtered out under `{short(par.test, 50)}` is accounted by skip(1)", bool(sk), key=f"dump|unaccounted-skip|{short(par.test, 40)}", where=loc(c.ast))
     # kept commands are appended in buffer order
-    apn = [n for n in dcfg.nodes if n.kind == "stmt" and any(call_name(c) == "cmds.append" for c in calls_in(n.ast))]
-    ext = [n for n in dcfg.nodes if n.kind == "stmt" and any(last_attr(c) == "extend" and unparse(c.func.value) == "hist['cmds']" and c.args and unparse(c.args[0]) == "cmds" for c in calls_in(n.ast))]
+    ext = [n for n in dcfg.nodes if n.kind == "stmt" and any(last_attr(c) == "extend" and unparse(c.func.value) == "hist['cmds']" and c.args and isinstance(c.args[0], ast.Name) for c in calls_in(n.ast))]
+    kept_names = set()
+    ddefs_ = df.all_defs(du)
+    for n in ext:
+        for c in calls_in(n.ast):
+            if last_attr(c) == "extend" and c.args and isinstance(c.args[0], ast.Name):
+                kept_names |= alias_class(ddefs_, c.args[0].id)
+    apn = [n for n in dcfg.nodes if n.kind == "stmt" and any(isinstance(c.func, ast.Attribute) and c.func.attr == "append" and isinstance(c.func.value, ast.Name) and c.func.value.id in kept_names and any(isinstance(a_, ast.For) and unparse(a_.iter) == "self.buffer" for a_ in ancestors(n.ast)) for c in calls_in(n.ast))]
     ctx.ob("R3", f"{HJ}:JsonHistoryFlusher.dump", "kept commands are appended after the commands already on disk, in buffer order", bool(apn) and bool(ext), key="dump|order")
 
     # ------------------------------------------------------------------ R4
     sites = [("JsonHistoryFlusher.__init__", "queue"), ("JsonHistoryFlusher.run", "self.queue"), ("JsonCommandField.__getitem__", "queue")]
     for q, qn in sites:
-        fn = hj.func(q)
+        fn = flat(ctx, hj.func(q), depth=2, skip=("i_am_at_the_front",))
         st = f"{HJ}:{q}"
         cfg = CFG(fn)
         waits = [n for n in cfg.nodes if n.kind == "stmt" and any(last_attr(c) == "wait_for" and c.args and "i_am_at_the_front" in unparse(c.args[0]) for c in calls_in(n.ast))]
